@@ -3,6 +3,7 @@
 from __future__ import annotations
 
 import ast
+import copy
 import re
 from typing import Dict, List, Optional, Set, Tuple
 
@@ -19,7 +20,7 @@ from .decoders import (
     trim,
     var_bits,
 )
-from .pyast import call_name, names_loaded, unparse, walk_no_nested
+from .pyast import call_name, names_loaded, resolve_alias, unparse, walk_no_nested
 
 def _closure_key(fn: ast.FunctionDef, c: ast.FunctionDef) -> str:
     cl = sorted([n for n in ast.walk(fn) if isinstance(n, ast.FunctionDef) and n is not fn], key=lambda n: n.lineno)
@@ -160,7 +161,37 @@ def d1(ctx: Ctx):
                     var = st.targets[0].id if isinstance(st.targets[0], ast.Name) else None
                     ctx.ob(f"{dec}.{_closure_key(fn, c)}:palette[x]", okidx, "" if okidx else f"palette is indexed with `{unparse(idx)}`, not with the pixel value", file=DECODERS[dec], line=st.lineno)
             ctx.need(var is not None, f"{dec}.{_closure_key(fn, c)}", "`c = palette[x]` not found")
-            packs = [n for n in ast.walk(c) if isinstance(n, ast.Call) and call_name(n) == "pack" and n.args and isinstance(n.args[0], ast.List)]
+            # channels named first (`red = ...; rgb = [red * K, ...]; pack(rgb)`): single-assignment locals of the closure and
+            # module-level integer constants are read through
+            _modc = {k_: v_ for k_, v_ in D.mods[dec].assigns.items() if isinstance(v_, ast.Constant) and isinstance(v_.value, int)}
+            _once: Dict[str, ast.AST] = {}
+            _cnt: Dict[str, int] = {}
+            for st in ast.walk(c):
+                if isinstance(st, ast.Assign) and len(st.targets) == 1 and isinstance(st.targets[0], ast.Name):
+                    _cnt[st.targets[0].id] = _cnt.get(st.targets[0].id, 0) + 1
+                    _once[st.targets[0].id] = st.value
+                elif isinstance(st, (ast.AugAssign, ast.For)) and isinstance(getattr(st, "target", None), ast.Name):
+                    _cnt[st.target.id] = _cnt.get(st.target.id, 0) + 2
+            _once = {k_: v_ for k_, v_ in _once.items() if _cnt.get(k_) == 1 and k_ != var}
+
+            def _through(e_: ast.AST, depth: int = 0) -> ast.AST:
+                if depth > 6:
+                    return e_
+
+                class _S(ast.NodeTransformer):
+                    def visit_Name(self, n_: ast.Name):
+                        if isinstance(n_.ctx, ast.Load) and n_.id in _once:
+                            return _through(copy.deepcopy(_once[n_.id]), depth + 1)
+                        if isinstance(n_.ctx, ast.Load) and n_.id in _modc and n_.id not in _cnt:
+                            return ast.copy_location(ast.Constant(value=_modc[n_.id].value), n_)
+                        return n_
+
+                return ast.fix_missing_locations(_S().visit(copy.deepcopy(e_)))
+
+            packs = [n for n in ast.walk(c) if isinstance(n, ast.Call) and call_name(n) == "pack" and n.args]
+            for pk_ in packs:
+                pk_.args[0] = _through(pk_.args[0])
+            packs = [n for n in packs if isinstance(n.args[0], ast.List)]
             ctx.need(len(packs) == 1 and len(packs[0].args[0].elts) == 3, f"{dec}.{c.name}", "pack([r, g, b]) not found")
             for ch, (e, r) in enumerate(zip(packs[0].args[0].elts, ref)):
                 try:
@@ -176,6 +207,49 @@ def d1(ctx: Ctx):
     for n in ast.walk(m.tree):
         if isinstance(n, ast.Assign) and isinstance(n.targets[0], ast.Name) and isinstance(n.value, (ast.List, ast.Tuple)) and len(n.value.elts) >= 32 and all(isinstance(e, (ast.Tuple, ast.List)) and len(e.elts) == 3 for e in n.value.elts):
             tbl = n  # the colour table: a long list of (r, g, b) triples, whatever it is called
+    if tbl is None:
+        # the table computed instead of written out: `[f(i) for i in range(64)]` with a straight-line arithmetic f
+        # (or the triple spelled in the comprehension itself) - its 64 values are computed here and compared the same way
+        from .decoders import IntEvalError, int_eval
+
+        for n in ast.walk(m.tree):
+            if not (isinstance(n, ast.Assign) and isinstance(n.targets[0], ast.Name) and isinstance(n.value, ast.ListComp) and len(n.value.generators) == 1):
+                continue
+            g = n.value.generators[0]
+            vals_ = _const_iteration(g.iter) if not g.ifs and isinstance(g.target, ast.Name) else None
+            if vals_ is None or len(vals_) < 32:
+                continue
+            elt = n.value.elt
+            body_: List[ast.stmt] = []
+            par_ = None
+            if isinstance(elt, ast.Call) and isinstance(elt.func, ast.Name) and elt.func.id in m.functions and len(elt.args) == 1 and isinstance(elt.args[0], ast.Name) and elt.args[0].id == g.target.id:
+                f_ = m.functions[elt.func.id]
+                if len(f_.args.args) != 1:
+                    continue
+                par_ = f_.args.args[0].arg
+                body_ = [st for st in f_.body if not (isinstance(st, ast.Expr) and isinstance(st.value, ast.Constant))]
+            elif isinstance(elt, (ast.Tuple, ast.List)):
+                par_ = g.target.id
+                body_ = [ast.Return(value=elt)]
+            else:
+                continue
+            if not body_ or not all(isinstance(st, ast.Assign) and len(st.targets) == 1 and isinstance(st.targets[0], ast.Name) for st in body_[:-1]) or not (isinstance(body_[-1], ast.Return) and isinstance(body_[-1].value, (ast.Tuple, ast.List)) and len(body_[-1].value.elts) == 3):
+                continue
+            computed = []
+            try:
+                for i_ in vals_:
+                    env_ = {par_: i_}
+                    for st in body_[:-1]:
+                        env_[st.targets[0].id] = int_eval(st.value, env_)
+                    computed.append(tuple(int_eval(x_, env_) for x_ in body_[-1].value.elts))
+            except IntEvalError as ex:
+                raise AnalysisError("D1", "veftopng.coco3_rgb", f"computed colour table is not evaluable: {ex}")
+            ctx.ob("veftopng.coco3_rgb:len", len(computed) == 64 and vals_ == list(range(64)), "" if len(computed) == 64 and vals_ == list(range(64)) else f"table has {len(computed)} entries (indices {vals_[:3]}...), the colour code has the 64 values 0..63", file=DECODERS["veftopng"], line=n.lineno)
+            for i, val in enumerate(computed[:64]):
+                ok = val == _ref_rgb(i)
+                ctx.ob(f"veftopng.coco3_rgb[{i}]", ok, "" if ok else f"entry {i} is {val}, colour code {i} denotes {_ref_rgb(i)}", file=DECODERS["veftopng"], line=n.lineno)
+            ctx.units["dump_closures"] = n_closures
+            return
     ctx.need(tbl is not None, "veftopng.coco3_rgb", "palette table not found")
     entries = tbl.value.elts
     ctx.ob("veftopng.coco3_rgb:len", len(entries) == 64, "" if len(entries) == 64 else f"table has {len(entries)} entries, the colour code has 64 values", file=DECODERS["veftopng"], line=tbl.lineno)
@@ -1015,9 +1089,22 @@ def d4(ctx: Ctx):
                     facts={"nominal_value": nominal[:3]},
                     props=["C18", "C16", "C19"],  # also C19: a well-formed (or one-bit damaged) header then yields a short payload and success
                 )
-            ctx.ob(key, False, msg, file=rel, line=call.lineno, facts=facts, witness=("an option value violating: " + ", ".join(unmet)) if unmet else "", props=["C18"] if unmet else ["C19"])
+            ctx.ob(key, False, msg, file=rel, line=call.lineno, facts=facts, witness=("an option value violating: " + ", ".join(unmet)) if unmet else "", props=["C18"] if unmet else (["C19"] if fb or not _only_options(fn, wr_n, an_n) else ["C18", "C19"]))
         if all_ok:
             ctx.ob(dec, True, file=rel, line=call.lineno, facts=last_facts)
+
+
+def _only_options(fn: ast.FunctionDef, *polys) -> bool:
+    """Both sample counts are functions of the decoder's parameters (the option values) alone - then a disagreement
+    shows for well-formed files too; a count that depends on the file's own size or bytes is about damaged input."""
+    params = {a.arg for a in fn.args.args + fn.args.kwonlyargs}
+    for p_ in polys:
+        for k in p_.terms:
+            for a in k:
+                ids = set(re.findall(r"[A-Za-z_][A-Za-z_0-9.]*", a))
+                if not ids <= params | {"min", "max", "floordiv", "int", "abs", "mod"}:
+                    return False
+    return True
 
 
 def _const_test(t: ast.AST, env: Dict[str, Poly]) -> Optional[bool]:
@@ -1105,11 +1192,21 @@ def d4b(ctx: Ctx):
         line=rw.lineno,
         witness="" if ok else "a 256x100 MAX file (3200 data bytes)",
     )
-    chk = next((n for n in ast.walk(fn) if isinstance(n, ast.If) and lenvar in names_loaded(n.test) and height_names & names_loaded(n.test)), None)
+    def _test_names(t_: ast.AST) -> Set[str]:
+        # names the test reads, looking through single-assignment locals (`actual = cols * rows // 8; if actual != size`)
+        out_ = set(names_loaded(t_))
+        for nm_ in [x_ for x_ in ast.walk(t_) if isinstance(x_, ast.Name)]:
+            r_ = resolve_alias(fn, nm_)
+            if r_ is not nm_:
+                out_ |= names_loaded(r_)
+        return out_
+
+    chk = next((n for n in ast.walk(fn) if isinstance(n, ast.If) and lenvar in _test_names(n.test) and height_names & _test_names(n.test)), None)
     okc = False
     if chk is not None and isinstance(chk.test, ast.Compare) and isinstance(chk.test.ops[0], ast.NotEq):
         a, b = chk.test.left, chk.test.comparators[0]
         for x, y in ((a, b), (b, a)):
+            x = resolve_alias(fn, x) if not (isinstance(x, ast.Name) and x.id == lenvar) else x
             if isinstance(y, ast.Name) and y.id == lenvar and isinstance(x, ast.BinOp) and isinstance(x.op, ast.FloorDiv):
                 okc = any(poly_eval(x.left, {}) == Poly.atom(cols_p) * Poly.atom(h_) for h_ in height_names) and poly_eval(x.right, {}).is_const() == 8
     ctx.ob("maxtoppm:length-consistency", okc, "" if okc else "the test that the derived height reproduces the length field is gone or changed", file=rel, line=chk.lineno if chk else fn.lineno)
@@ -1380,7 +1477,8 @@ def d6(ctx: Ctx):
             # the same accounting written per run: `for _ in range(n): write ...` followed by `counter -= n` in the while body.
             # Nothing can stop the repeat at the end of the picture in this form: it is the unguarded repeat loop.
             for k_, st in enumerate(wl.body):
-                if isinstance(st, ast.AugAssign) and isinstance(st.op, ast.Sub) and isinstance(st.target, ast.Name) and isinstance(st.value, ast.Name):
+                # (counting down to zero or up to the total: the same accounting)
+                if isinstance(st, ast.AugAssign) and isinstance(st.op, (ast.Sub, ast.Add)) and isinstance(st.target, ast.Name) and isinstance(st.value, ast.Name):
                     reps = [f_ for f_ in wl.body[:k_] if isinstance(f_, ast.For) and isinstance(f_.iter, ast.Call) and call_name(f_.iter) == "range" and len(f_.iter.args) == 1 and isinstance(f_.iter.args[0], ast.Name) and f_.iter.args[0].id == st.value.id and any(isinstance(c, ast.Call) and call_name(c) not in ("range", "ord", "iotostr") for c in ast.walk(f_))]
                     if reps and st.target.id in names_loaded(wl.test) and not any(_decrement_target(x) == st.target.id for f_ in reps for x in ast.walk(f_)):
                         found += 1
@@ -1698,7 +1796,9 @@ def d12(ctx: Ctx):
                     bound = lp.test.comparators[0]
             elif isinstance(lp, ast.For) and isinstance(lp.iter, ast.Call) and call_name(lp.iter) == "range" and len(lp.iter.args) == 1:
                 bound = lp.iter.args[0]
-            if bound is None:
+            if bound is None and isinstance(lp, ast.While) and isinstance(lp.test, ast.BoolOp) and isinstance(lp.test.op, ast.And) and any(isinstance(x, ast.Call) and call_name(x) == "len" for v_ in lp.test.values for x in ast.walk(v_)):
+                ctx.ob("veftopng.records:no-silent-stop", False, f"the record loop also ends when `{unparse(lp.test)}` runs out of data: a squashed file cut at a record boundary is converted `successfully` with fewer samples than the PNG announces (reading the missing count byte used to fail)", file=rel, line=lp.lineno, props=["C19"])
+            elif bound is None:
                 ctx.undecided("veftopng.records", "the loop over the squashed records is not a plain counting loop", file=rel, line=lp.lineno, props=["C17"])
             else:
                 # names assigned once before the loop from the type's values may appear in the bound
@@ -2102,7 +2202,21 @@ def d15(ctx: Ctx):
         try:
             tv = [bool(_ie5(e2, {"byte__": v_})) for v_ in range(256)]
         except _IEE5:
-            continue  # the flag is kept as a number and tested elsewhere
+            # the flag compared as text: the character of the byte against a string constant
+            class _CharVar(ast.NodeTransformer):
+                def visit_Call(self, n_):
+                    if call_name(n_) in ("iotostr",) and any(isinstance(c_, ast.Call) and call_name(c_) == "read" for c_ in ast.walk(n_)):
+                        return ast.copy_location(ast.Name(id="char__", ctx=ast.Load()), n_)
+                    self.generic_visit(n_)
+                    return n_
+
+            from .rules_tmpl import _PredUnknown, _str_pred
+
+            e3 = _CharVar().visit(_copy.deepcopy(expr))
+            try:
+                tv = [bool(_str_pred(e3, {"char__": chr(v_)}, {})) for v_ in range(256)]
+            except _PredUnknown:
+                continue  # the flag is kept as a number and tested elsewhere
         okf = tv[0] != tv[1] and len(set(tv[1:])) == 1
         odd = next((v_ for v_ in range(2, 256) if tv[v_] != tv[1]), None)
         ctx.ob(f"mgetoppm.{role}:zero-test", okf, "" if okf else f"the {role} flag is derived as `{unparse(expr)}`: the format distinguishes zero from non-zero, but this treats {odd if odd is not None else 1} like {'0' if (odd is not None and tv[odd] == tv[0]) or odd is None else 'a different case'} - files whose flag byte has that value are decoded the other way", file=rel, line=getattr(expr, "lineno", fn.lineno), props=["C16", "C17", "C18"])
@@ -2223,6 +2337,22 @@ def d18(ctx: Ctx):
             for st in lp.body:
                 if not isinstance(st, ast.If):
                     continue
+                # a test between the current byte and a header byte decides literal / group: it is an equality of the two
+                # bytes and of nothing else (escape value 0 is as good as any other)
+                tn = sorted(names_loaded(st.test))
+                if len(tn) == 2 and any(isinstance(c, ast.Call) and call_name(c) == "read" for s_ in st.body + st.orelse for c in ast.walk(s_)):
+                    from .decoders import IntEvalError as _IEE8, int_eval as _ie8
+
+                    try:
+                        pairs = [(a_, b_) for a_ in (0, 1, 5, 140, 255) for b_ in (0, 1, 5, 140, 255)]
+                        tv = [bool(_ie8(st.test, {tn[0]: a_, tn[1]: b_})) for a_, b_ in pairs]
+                        eq = [a_ == b_ for a_, b_ in pairs]
+                        okq = tv == eq or tv == [not x for x in eq]
+                        odd = next(((a_, b_) for (a_, b_), t_, e_ in zip(pairs, tv, eq) if (t_ == e_) != (tv[1] == eq[1])), None)
+                        n_sites += 1
+                        ctx.ob(f"{dec}.convert:`{unparse(st.test)}`:equality", okq, "" if okq else f"`{unparse(st.test)}` is not simply `{tn[0]} equals {tn[1]}`: for the values {odd} it decides the other way, so a file whose escape byte has that value is decoded with literals taken for groups (or the reverse)", file=rel, line=st.lineno)
+                    except _IEE8:
+                        pass
                 for arm_name, arm in (("then", st.body), ("else", st.orelse)):
                     if not arm or not any(isinstance(c, ast.Call) and call_name(c) == "read" for s_ in arm for c in ast.walk(s_)):
                         continue
@@ -2352,3 +2482,95 @@ def d21(ctx: Ctx):
                 n += 1
                 ctx.ob(f"{dec}:`{unparse(c)}`", kind is False, "" if kind is False else f"`{unparse(c)}` compares text (the characters returned by iotostr(read ...)) with the number {b.value}: it is never true, so the header refusal / branch it guards never happens and a file with that field set is decoded as if it were well-formed", file=rel, line=c.lineno)
     ctx.need(n >= 3, "decoders", f"only {n} comparisons of header values with numbers found")
+
+
+# ---------------------------------------------------------------------------
+# D22 FLUSH-RESET / BUFFER-BOUNDS
+
+
+@rule("D22", "BUFFERS: a buffer that is written out inside a loop is emptied inside that loop; a fixed-size buffer is never indexed by a counter whose range comes from the file and can exceed it", ["C16", "C17", "C18"], floor=1)
+def d22(ctx: Ctx):
+    from .decoders import IntEvalError, int_eval
+
+    D = decoderfacts(ctx)
+    n = 0
+    for dec in ("cm3toppm", "mgetoppm", "rattoppm", "hrstoppm", "maxtoppm", "pixtopgm"):
+        fn = D.fn(dec, "convert")
+        rel = DECODERS[dec]
+        parents: Dict[int, ast.AST] = {id(c): p for p in ast.walk(fn) for c in ast.iter_child_nodes(p)}
+
+        def loops_of(x):
+            out = []
+            p = parents.get(id(x))
+            while p is not None and p is not fn:
+                if isinstance(p, (ast.For, ast.While)):
+                    out.append(p)
+                p = parents.get(id(p))
+            return out
+
+        # (1) accumulate-and-flush
+        grown = {c.func.value.id for c in ast.walk(fn) if isinstance(c, ast.Call) and isinstance(c.func, ast.Attribute) and c.func.attr in ("append", "extend") and isinstance(c.func.value, ast.Name)}
+        for w in [c for c in ast.walk(fn) if isinstance(c, ast.Call) and call_name(c) == "write" and isinstance(c.func, ast.Attribute)]:
+            used = {x.id for a in w.args for x in ast.walk(a) if isinstance(x, ast.Name)} & grown
+            for buf in sorted(used):
+                lw = loops_of(w)
+                if not lw:
+                    continue
+                n += 1
+                outer = lw[-1]  # outermost loop around the write
+                resets = [a for a in ast.walk(fn) if (isinstance(a, ast.Assign) and any(isinstance(t, ast.Name) and t.id == buf for t in a.targets)) or (isinstance(a, ast.Call) and isinstance(a.func, ast.Attribute) and a.func.attr == "clear" and isinstance(a.func.value, ast.Name) and a.func.value.id == buf) or (isinstance(a, ast.Delete) and any(isinstance(t, ast.Subscript) and isinstance(t.value, ast.Name) and t.value.id == buf for t in a.targets))]
+                inside = [a for a in resets if any(x is a for x in ast.walk(lw[0]))]
+                ok = bool(inside)
+                ctx.ob(f"{dec}.flush:{buf}", ok, "" if ok else f"`{buf}` is filled with `.append(..)`, written out inside the loop at line {lw[0].lineno}, and never emptied inside that loop: every later round writes everything collected so far again (a two-page picture gets page one twice)", file=rel, line=w.lineno)
+        # (2) fixed-size buffers indexed by a file-driven counter
+        sizes: Dict[str, int] = {}
+        # named sizes: module-level integer constants and locals bound once to a constant expression
+        st_cnt: Dict[str, int] = {}
+        for x in ast.walk(fn):
+            if isinstance(x, ast.Name) and isinstance(x.ctx, ast.Store):
+                st_cnt[x.id] = st_cnt.get(x.id, 0) + 1
+        cenv: Dict[str, int] = {k_: v_ for k_, v_ in D.mod_ints(dec).items() if st_cnt.get(k_, 0) <= 1}
+        for a in walk_no_nested(fn):
+            if isinstance(a, ast.Assign) and len(a.targets) == 1 and isinstance(a.targets[0], ast.Name) and st_cnt.get(a.targets[0].id) == 1:
+                try:
+                    v_ = int_eval(a.value, cenv)
+                except IntEvalError:
+                    continue
+                if isinstance(v_, int) and not isinstance(v_, bool):
+                    cenv[a.targets[0].id] = v_
+        for a in walk_no_nested(fn):
+            if isinstance(a, ast.Assign) and len(a.targets) == 1 and isinstance(a.targets[0], ast.Name) and isinstance(a.value, ast.BinOp) and isinstance(a.value.op, ast.Mult):
+                for lst, k in ((a.value.left, a.value.right), (a.value.right, a.value.left)):
+                    if isinstance(lst, ast.List) and len(lst.elts) == 1:
+                        try:
+                            sizes[a.targets[0].id] = int_eval(k, cenv)
+                        except IntEvalError:
+                            pass
+        for bname, bsize in sorted(sizes.items()):
+            n += 1
+            ctx.ob(f"{dec}.buffer:{bname}", True, file=rel, line=fn.lineno, facts={"elements": bsize})
+        rebuilt = {a.targets[0].id for a in ast.walk(fn) if isinstance(a, ast.Assign) and isinstance(a.targets[0], ast.Name) and isinstance(a.value, (ast.List, ast.ListComp)) and a.targets[0].id in sizes and not (isinstance(a.value, ast.List) and False)}
+        file_bytes = {a.targets[0].id for a in ast.walk(fn) if isinstance(a, ast.Assign) and isinstance(a.targets[0], ast.Name) and isinstance(a.value, ast.Call) and call_name(a.value) == "ord" and any(isinstance(c, ast.Call) and call_name(c) == "read" for c in ast.walk(a.value))}
+        for lp in [x for x in ast.walk(fn) if isinstance(x, ast.For) and isinstance(x.target, ast.Name) and isinstance(x.iter, ast.Call) and call_name(x.iter) == "range" and len(x.iter.args) == 1 and isinstance(x.iter.args[0], ast.Name) and x.iter.args[0].id in file_bytes]:
+            cnt = lp.iter.args[0].id
+            # the largest value the enclosing guards allow for the count byte
+            hi = 255
+            p = parents.get(id(lp))
+            child = lp
+            while p is not None and p is not fn:
+                if isinstance(p, ast.If) and names_loaded(p.test) == {cnt}:
+                    try:
+                        sat = [v for v in range(256) if bool(int_eval(p.test, {cnt: v}))]
+                        allowed = sat if any(child is b or any(child is y for y in ast.walk(b)) for b in p.body) else [v for v in range(256) if v not in sat]
+                        if allowed:
+                            hi = min(hi, max(allowed))
+                    except IntEvalError:
+                        pass
+                child = p
+                p = parents.get(id(p))
+            for s_ in ast.walk(lp):
+                if isinstance(s_, ast.Subscript) and isinstance(s_.value, ast.Name) and s_.value.id in sizes and s_.value.id not in rebuilt and isinstance(s_.slice, ast.Name) and s_.slice.id == lp.target.id:
+                    n += 1
+                    ok = hi <= sizes[s_.value.id]
+                    ctx.ob(f"{dec}.bounds:{s_.value.id}[{lp.target.id}<{cnt}]", ok, "" if ok else f"`{s_.value.id}` has {sizes[s_.value.id]} elements but is indexed by `{lp.target.id}` in `range({cnt})`, and the count byte `{cnt}` can be as large as {hi}: a valid line with a longer map ends in IndexError", file=rel, line=s_.lineno)
+    ctx.need(n >= 1, "decoders", "no fixed-size buffer found in any decoder (expected CM3's line buffers)")
